@@ -345,6 +345,45 @@ def write_footprint():
     return sorted(set(out))
 
 
+def shared_containers():
+    """Every mutable container created once at import time and reachable from every call: a dict / list / set literal,
+    comprehension or constructor call assigned at module level or in a class body (AST of src/joserfc).  A class-level
+    container on a class whose instances are per-call message objects is shared by all of them - the mutable-default trap
+    one level up."""
+    import joserfc
+    root = Path(joserfc.__file__).resolve().parent
+    out = []
+
+    def mutable(v):
+        if isinstance(v, (ast.List, ast.Dict, ast.Set, ast.ListComp, ast.DictComp, ast.SetComp)):
+            return True
+        if isinstance(v, ast.Call):
+            fn = v.func
+            name = fn.attr if isinstance(fn, ast.Attribute) else getattr(fn, "id", "")
+            return name in ("dict", "list", "set", "bytearray", "defaultdict", "OrderedDict", "deque", "Counter", "WeakValueDictionary")
+        return False
+
+    def targets_of(n):
+        if isinstance(n, ast.Assign):
+            return [t.id for t in n.targets if isinstance(t, ast.Name)], n.value
+        if isinstance(n, ast.AnnAssign) and isinstance(n.target, ast.Name) and n.value is not None:
+            return [n.target.id], n.value
+        return [], None
+    for f in sorted(root.rglob("*.py")):
+        rel = str(f.relative_to(root))
+        tree = ast.parse(f.read_text())
+        for n in tree.body:
+            names, v = targets_of(n)
+            if v is not None and mutable(v):
+                out += [(rel, "<module>", nm) for nm in names if nm != "__all__"]
+            if isinstance(n, ast.ClassDef):
+                for m in n.body:
+                    names, v = targets_of(m)
+                    if v is not None and mutable(v):
+                        out += [(rel, n.name, nm) for nm in names]
+    return sorted(set(out))
+
+
 def main():
     L = []
     J = {}
@@ -451,6 +490,9 @@ def main():
     L.append("def sharedWrites : List WriteSite := " + llist(
         f"{{ file := {lstr(a)}, cls := {lstr(b)}, func := {lstr(c)}, kind := {lstr(d)}, target := {lstr(e)} }}" for a, b, c, d, e in fp) + "\n")
     J["sharedWrites"] = [list(x) for x in fp]
+    sc = shared_containers()
+    L.append("def sharedContainers : List (String × String × String) := " + llist(f"({lstr(a)}, {lstr(b)}, {lstr(c)})" for a, b, c in sc) + "\n")
+    J["sharedContainers"] = [list(x) for x in sc]
     L.append("end Generated\n")
 
     text = "\n".join(L)
